@@ -4,6 +4,7 @@ import TFV.Properties.Src.PdpgaTrial
 import TFV.Properties.Src.GATrial
 import TFV.Properties.Src.GPTrial
 import TFV.Properties.Src.PdpgaAdapt
+import TFV.Properties.Src.SelfCGAProba
 #print axioms TFV.SelfConf.C14_bumped_sum
 #print axioms TFV.SelfConf.C14_newProba_dist
 #print axioms TFV.SelfConf.C14_newProba_rule
@@ -19,3 +20,5 @@ import TFV.Properties.Src.PdpgaAdapt
 #print axioms TFV.SrcTie.C14_src_pdpgp_offspring
 #print axioms TFV.SrcTie.C14_src_pdpga_adapt_update
 #print axioms TFV.SrcTie.C14_src_pdpga_adapt_first
+#print axioms TFV.Properties.Src.SelfCGAProba.C14_src_get_new_proba
+#print axioms TFV.Properties.Src.SelfCGAProba.C14_src_get_new_proba_rejects
